@@ -23,7 +23,7 @@ import (
 
 func init() {
 	register(&Rule{
-		ID: "EG", Props: []string{"C13"}, Min: 3,
+		ID: "EG", Props: []string{"C13"}, Min: 4,
 		Doc: `SonCount is the in-degree: (add) each append of makeEdge(j,…) to a node's Edges is followed in the same block by SonCount++ on the node of index j; (remove) in the in-place
 compaction of Edges every path of the loop body either keeps the edge (the kept-count index is incremented) or decrements SonCount of that edge's Father, exactly one of the two.`,
 		Run: runEG,
@@ -59,6 +59,13 @@ func runEG(c *Ctx, s *Sink) {
 			return ""
 		}
 		nAdd := 0
+		usesLCS := false
+		ast.Inspect(fd.Body, func(n ast.Node) bool {
+			if call, ok := n.(*ast.CallExpr); ok && isCallTo(info, call, "pkg/obialign.FastLCSScore") {
+				usesLCS = true
+			}
+			return true
+		})
 		var visitBlock func(list []ast.Stmt)
 		visitBlock = func(list []ast.Stmt) {
 			for i, st := range list {
@@ -97,6 +104,41 @@ func runEG(c *Ctx, s *Sink) {
 						}
 						return true
 					})
+				}
+				// one-difference graph (the default): the link goes to a STRICTLY more abundant sequence
+				if !usesLCS {
+					keyS := key + ":strict"
+					son := rootIdent(as.Lhs[0])
+					var guard *ast.BinaryExpr
+					ast.Inspect(fd.Body, func(n ast.Node) bool {
+						ifs, ok := n.(*ast.IfStmt)
+						if !ok || !(as.Pos() >= ifs.Body.Pos() && as.End() <= ifs.Body.End()) {
+							return true
+						}
+						if b, ok := ast.Unparen(ifs.Cond).(*ast.BinaryExpr); ok {
+							lx, okx := ast.Unparen(b.X).(*ast.SelectorExpr)
+							ly, oky := ast.Unparen(b.Y).(*ast.SelectorExpr)
+							if okx && oky && lx.Sel.Name == "Count" && ly.Sel.Name == "Count" {
+								guard = b
+							}
+						}
+						return true
+					})
+					switch {
+					case guard == nil:
+						s.Fail(nil, keyS, as.Pos(), "the edge is added without comparing the abundances of the two sequences: the one-difference graph must link a sequence to a strictly more abundant one only")
+					default:
+						lx := ast.Unparen(guard.X).(*ast.SelectorExpr)
+						ly := ast.Unparen(guard.Y).(*ast.SelectorExpr)
+						fatherLeft := nodeIndex(lx.X) == father && info.ObjectOf(rootIdent(ly.X)) == info.ObjectOf(son)
+						fatherRight := nodeIndex(ly.X) == father && info.ObjectOf(rootIdent(lx.X)) == info.ObjectOf(son)
+						okStrict := (fatherLeft && guard.Op == token.GTR) || (fatherRight && guard.Op == token.LSS)
+						if okStrict {
+							s.Pass(nil, keyS, guard.Pos(), "edge added only when the father is strictly more abundant than the son")
+						} else {
+							s.Fail(nil, keyS, guard.Pos(), "the abundance test guarding the edge is '"+types.ExprString(guard)+"', not 'father strictly more abundant than son': sequences tied in abundance get linked, one of them becomes internal and the other absorbs its weight")
+						}
+					}
 				}
 				switch {
 				case wrong != "":
